@@ -38,7 +38,12 @@ class Unknown(Exception):
 
 
 STR_METHODS = {"split", "rsplit", "lower", "upper", "strip", "startswith",
-               "endswith", "replace"}
+               "endswith", "replace", "__contains__", "__eq__", "__ne__",
+               "find", "rfind", "index", "count", "casefold", "lstrip",
+               "rstrip", "removeprefix", "removesuffix", "partition",
+               "rpartition"}
+OPERATOR_FUNCS = {"eq": lambda a, b: a == b, "ne": lambda a, b: a != b,
+                  "contains": lambda a, b: b in a}
 
 
 class Mini:
@@ -110,21 +115,53 @@ class Mini:
             raise Unknown(txt(e))
         if isinstance(e, ast.UnaryOp) and isinstance(e.op, ast.USub):
             return -self.ev(e.operand)
-        if isinstance(e, ast.Call) and isinstance(e.func, ast.Attribute) \
-                and e.func.attr in STR_METHODS and not e.keywords:
-            recv = self.ev(e.func.value)
-            if not isinstance(recv, str):
+        # function values: unbound str methods, operator.*, lambdas
+        if isinstance(e, ast.Attribute) and dotted(e) is not None:
+            d = dotted(e)
+            if d.startswith("str.") and d[4:] in STR_METHODS:
+                return getattr(str, d[4:])
+            if d.startswith("operator.") and d[9:] in OPERATOR_FUNCS:
+                return OPERATOR_FUNCS[d[9:]]
+        if isinstance(e, ast.Lambda):
+            a = e.args
+            if a.vararg or a.kwarg or a.kwonlyargs or a.defaults \
+                    or a.posonlyargs:
                 raise Unknown(txt(e))
-            args = [self.ev(a) for a in e.args]
-            return getattr(recv, e.func.attr)(*args)
-        if isinstance(e, ast.Call) and dotted(e.func) in (
-                "str.startswith", "str.__eq__", "str.endswith") \
-                and len(e.args) == 2:
-            a, b = [self.ev(x) for x in e.args]
-            return getattr(str, e.func.attr)(a, b)
-        if isinstance(e, ast.Call) and dotted(e.func) == "bool" \
-                and len(e.args) == 1:
-            return bool(self.ev(e.args[0]))
+            params = [x.arg for x in a.args]
+            env = dict(self.env)
+
+            def closure(*vals, _params=params, _body=e.body, _env=env):
+                if len(vals) != len(_params):
+                    raise Unknown("lambda arity")
+                return Mini({**_env, **dict(zip(_params, vals))}).ev(_body)
+            return closure
+        if isinstance(e, ast.Call) and not e.keywords:
+            try:
+                if isinstance(e.func, ast.Attribute) \
+                        and e.func.attr in STR_METHODS and not (
+                            dotted(e.func) or "").startswith(
+                            ("str.", "operator.")):
+                    recv = self.ev(e.func.value)
+                    if not isinstance(recv, str):
+                        raise Unknown(txt(e))
+                    args = [self.ev(a) for a in e.args]
+                    return getattr(recv, e.func.attr)(*args)
+                if dotted(e.func) in ("bool", "len", "str") \
+                        and len(e.args) == 1 \
+                        and dotted(e.func) not in self.env:
+                    v = self.ev(e.args[0])
+                    if dotted(e.func) == "len" and not isinstance(
+                            v, (str, list, tuple, set)):
+                        raise Unknown(txt(e))
+                    return {"bool": bool, "len": len,
+                            "str": str}[dotted(e.func)](v)
+                f = self.ev(e.func)
+                if callable(f):
+                    return f(*[self.ev(a) for a in e.args])
+            except Unknown:
+                raise
+            except Exception as exc:     # ValueError of str.index, ...
+                raise Unknown(f"{txt(e)} raises {type(exc).__name__}")
         raise Unknown(txt(e))
 
 
